@@ -35,12 +35,21 @@ func ReadOnlyEnd() {
 	roRoots = nil
 }
 
+// Pointers already met are written canonically, independent of the (random) order in which map
+// entries are visited: a pointer that is still being traversed (a cycle, e.g. the parent link of a
+// child) as the distance up the traversal stack, a finished one by its own fingerprint.
+type fpNode struct {
+	onStack bool
+	depth   int
+	hash    uint64
+}
+
 type fp struct {
-	seen map[unsafe.Pointer]int
+	seen map[unsafe.Pointer]*fpNode
 }
 
 func fingerprintAll(roots []interface{}) uint64 {
-	f := &fp{seen: map[unsafe.Pointer]int{}}
+	f := &fp{seen: map[unsafe.Pointer]*fpNode{}}
 	h := fnv.New64a()
 	for _, r := range roots {
 		fmt.Fprintf(h, "%x;", f.value(reflect.ValueOf(r), 0))
@@ -74,12 +83,19 @@ func (f *fp) value(v reflect.Value, depth int) uint64 {
 			break
 		}
 		p := unsafe.Pointer(v.Pointer())
-		if id, ok := f.seen[p]; ok {
-			fmt.Fprintf(h, "ref%d", id)
+		if n, ok := f.seen[p]; ok {
+			if n.onStack {
+				fmt.Fprintf(h, "up%d", depth-n.depth)
+			} else {
+				fmt.Fprintf(h, "same%x", n.hash)
+			}
 			break
 		}
-		f.seen[p] = len(f.seen)
-		fmt.Fprintf(h, "%x", f.value(v.Elem(), depth+1))
+		n := &fpNode{onStack: true, depth: depth}
+		f.seen[p] = n
+		n.hash = f.value(v.Elem(), depth+1)
+		n.onStack = false
+		fmt.Fprintf(h, "%x", n.hash)
 	case reflect.Interface:
 		if v.IsNil() {
 			fmt.Fprint(h, "nil")
@@ -127,4 +143,115 @@ func (f *fp) value(v reflect.Value, depth int) uint64 {
 		fmt.Fprint(h, v.IsNil())
 	}
 	return h.Sum64()
+}
+
+// ---- Disjoint: no mutable storage is reachable from both a and b ----
+
+type shareID struct {
+	p    unsafe.Pointer
+	kind byte // 'p' pointer target, 's' slice backing array (its end), 'm' map
+}
+
+type shareWalk struct {
+	ids    map[shareID]string
+	exempt map[string]bool
+}
+
+func (s *shareWalk) walk(v reflect.Value, path string, depth int) {
+	if !v.IsValid() || depth > 400 {
+		return
+	}
+	if s.exempt[v.Type().String()] {
+		return
+	}
+	switch v.Kind() {
+	case reflect.Ptr:
+		if v.IsNil() {
+			return
+		}
+		if v.Type().Elem().Size() == 0 {
+			return // all zero-size allocations share one address
+		}
+		p := shareID{unsafe.Pointer(v.Pointer()), 'p'}
+		if _, seen := s.ids[p]; seen {
+			return
+		}
+		s.ids[p] = path
+		s.walk(v.Elem(), path+"->", depth+1)
+	case reflect.Interface:
+		if v.IsNil() {
+			return
+		}
+		s.walk(v.Elem(), path+"("+v.Elem().Type().String()+")", depth+1)
+	case reflect.Struct:
+		if v.Type().PkgPath() == "regexp" || v.Type().PkgPath() == "reflect" || v.Type().PkgPath() == "sync" {
+			return
+		}
+		if !v.CanAddr() {
+			c := reflect.New(v.Type()).Elem()
+			c.Set(v)
+			v = c
+		}
+		for i := 0; i < v.NumField(); i++ {
+			fv := v.Field(i)
+			fv = reflect.NewAt(fv.Type(), unsafe.Pointer(fv.UnsafeAddr())).Elem()
+			s.walk(fv, path+"."+v.Type().Field(i).Name, depth+1)
+		}
+	case reflect.Slice:
+		if v.IsNil() || v.Cap() == 0 {
+			return
+		}
+		// identity: the end of the backing array (the same for every slice of it)
+		end := shareID{unsafe.Pointer(v.Pointer() + uintptr(v.Cap())*v.Type().Elem().Size()), 's'}
+		if _, seen := s.ids[end]; !seen && v.Type().Elem().Size() > 0 {
+			s.ids[end] = path + "[]"
+		}
+		for i := 0; i < v.Len(); i++ {
+			s.walk(v.Index(i), fmt.Sprintf("%s[%d]", path, i), depth+1)
+		}
+	case reflect.Array:
+		for i := 0; i < v.Len(); i++ {
+			s.walk(v.Index(i), fmt.Sprintf("%s[%d]", path, i), depth+1)
+		}
+	case reflect.Map:
+		if v.IsNil() {
+			return
+		}
+		p := shareID{unsafe.Pointer(v.Pointer()), 'm'}
+		if _, seen := s.ids[p]; seen {
+			return
+		}
+		s.ids[p] = path + "{}"
+		it := v.MapRange()
+		for it.Next() {
+			s.walk(it.Key(), path+"{key}", depth+1)
+			s.walk(it.Value(), path+"{}", depth+1)
+		}
+	}
+}
+
+// Disjoint reports whether no mutable storage (pointer target, slice backing array, map) is
+// reachable from both a and b. Values whose type (as printed by reflect, e.g. "*ucfg.Meta") is
+// listed in sharedOK are immutable by design and not followed.
+func Disjoint(label string, a, b interface{}, sharedOK ...string) bool {
+	ex := map[string]bool{}
+	for _, e := range sharedOK {
+		ex[e] = true
+	}
+	sa := &shareWalk{ids: map[shareID]string{}, exempt: ex}
+	sb := &shareWalk{ids: map[shareID]string{}, exempt: ex}
+	sa.walk(reflect.ValueOf(a), "root", 0)
+	sb.walk(reflect.ValueOf(b), "root", 0)
+	shared := ""
+	for p, pa := range sa.ids {
+		if pb, ok := sb.ids[p]; ok && (shared == "" || pa < shared) {
+			shared = pa + " == " + pb
+		}
+	}
+	if shared != "" {
+		Failures = append(Failures, "share:"+label)
+		fmt.Printf("SHARE %s: mutable storage reachable from both sides: %s\n", label, shared)
+		return false
+	}
+	return true
 }
